@@ -365,7 +365,7 @@ def wav_grid(tier, shard, nshards):
 
 
 CLAUSES = [
-  Clause("chunks", strat_chunks, run_chunks, quick=3000, thorough=50000,
+  Clause("chunks", strat_chunks, run_chunks, quick=3000, thorough=50000, fuzz={"thorough": 60000},
          floors={"strategy:struct": .1, "strategy:array": .1, "strategy:default": .05,
                  "padded tail": .15, "multi-chunk": .1, "size>128": .03,
                  "non-native multi-byte": .05, "order:None": .08},
@@ -374,7 +374,7 @@ CLAUSES = [
   Enumerated("chunk_grid", chunk_grid, run_chunks, shards={"quick": 8, "thorough": 16},
              doc="strategy x format x byte order x sizes around 127/128/255/256 x "
                  "(2 full chunks, 1 full + 1 item, size-1 items)"),
-  Clause("wav", strat_wav, run_wav, quick=2500, thorough=40000,
+  Clause("wav", strat_wav, run_wav, quick=2500, thorough=40000, fuzz={"thorough": 60000},
          floors={"width:8": .08, "width:16": .08, "width:24": .08, "width:32": .08,
                  "stereo": .15, "keep": .15, "scaled": .15, "negative sample": .2,
                  "route:path": .15, "route:fileobj": .07, "route:bytesio": .07},
